@@ -1,6 +1,7 @@
 package props
 
 import (
+	"reflect"
 	"fmt"
 	"os"
 	"strconv"
@@ -159,6 +160,17 @@ func runC15(e *core.Env) {
 // c15GlobalBuckets: one representative date per period over the whole calendar; the period hashes and the keys the report
 // aggregators group by must tell any two different periods apart (the per-year pass cannot see two far-apart periods
 // that share a key), and every date of a period must get that period's key from the aggregator as well.
+func c15Agg(constructor any) report.Aggregator {
+	v := reflect.ValueOf(constructor)
+	args := make([]reflect.Value, v.Type().NumIn())
+	for i := range args {
+		args[i] = reflect.Zero(v.Type().In(i))
+	}
+	var a report.Aggregator
+	core.Guard(func() { a, _ = v.Call(args)[0].Interface().(report.Aggregator) })
+	return a // nil: cannot be constructed this way (its keys are then observed through `klog report` only)
+}
+
 func c15GlobalBuckets(e *core.Env) int64 {
 	var n int64
 	viol := func(key, msg string) { e.Violation(key, msg, map[string]any{"scope": "whole calendar"}) }
@@ -167,7 +179,8 @@ func c15GlobalBuckets(e *core.Env) int64 {
 		kind ref.PeriodKind
 		key  func(d klog.Date) uint64
 	}
-	wa, ma, qa, ya, da := report.NewWeekAggregator(), report.NewMonthAggregator(), report.NewQuarterAggregator(), report.NewYearAggregator(), report.NewDayAggregator()
+	// (constructed through reflection with zero-valued arguments, so that a constructor that gains a parameter does not stop the harness from building)
+	wa, ma, qa, ya, da := c15Agg(report.NewWeekAggregator), c15Agg(report.NewMonthAggregator), c15Agg(report.NewQuarterAggregator), c15Agg(report.NewYearAggregator), c15Agg(report.NewDayAggregator)
 	srcs := []src{
 		{"week-hash", ref.PWeek, func(d klog.Date) uint64 { return uint64(period.NewWeekFromDate(d).Hash()) }},
 		{"month-hash", ref.PMonth, func(d klog.Date) uint64 { return uint64(period.NewMonthFromDate(d).Hash()) }},
@@ -180,6 +193,10 @@ func c15GlobalBuckets(e *core.Env) int64 {
 		{"day-report-key", ref.PDay, func(d klog.Date) uint64 { return uint64(da.DateHash(d)) }},
 	}
 	for _, s := range srcs {
+		if strings.HasSuffix(s.name, "-report-key") && map[string]report.Aggregator{"week-report-key": wa, "month-report-key": ma, "quarter-report-key": qa, "year-report-key": ya, "day-report-key": da}[s.name] == nil {
+			e.Count("report_key_sources_not_constructible", 1)
+			continue
+		}
 		seen := map[uint64]int{} // key -> first day of the period that owns it
 		bad := 0
 		step := 1
